@@ -217,6 +217,7 @@ func scWeight(sc c09Scenario, mergeOp, writeOp int) int {
 // runScenario explores one scenario. partitionTop: every worker explores the bounds below the top
 // one completely (identical, deterministic fixpoint) and only the top bound is split by subtree.
 func runScenario(c *explore.Ctx, sc c09Scenario, menu []c09Op, solo []string, fresh func() segment.Segment, finalOps []int, partitionTop bool) {
+	c.Begin(sc.name+"|", 0) // in-flight marker: a dying worker names the scenario (replays its default schedule)
 	var seg segment.Segment
 	got := make([]string, len(sc.threads))
 	mk := func() []func() {
